@@ -5,6 +5,7 @@
      H tb | cur | urls | ops            -> a history on the language server; per op output, then the reloaded
                                            dictionaries (user, then one per url)
      W tb | cur | ops                   -> a history on harper_wasm::Linter
+     C path cps | path cps              -> do the two paths share their file dictionary (C07Collide.x_f20_collide)? "1" / "0"
      S o w w s r                        -> the system calls of one real save on <name>.tmp, in order: accepted by C07Power.x_order_ok? "1" / "0"
      M tb | .w,.w | .w,.w               -> MergedDictionary::eq of [curated; dictionary of the first word list] and
                                            [curated; dictionary of the second]: "1" / "0"
@@ -196,6 +197,7 @@ let () =
             let ops = if String.trim ops = "" then [] else split ';' ops in
             history (table tb) (curated cur) urls ops
         | 'M', [tb; a; b] -> if x_merge_eq (table tb) (words_of_field a) (words_of_field b) then "1" else "0"
+        | 'C', [p; q] -> if x_f20_collide (ns p) (ns q) then "1" else "0"
         | 'S', [t] ->
             let sc = List.filter_map (fun x -> match x with "o" -> Some SOpen | "w" -> Some SWrite | "s" -> Some SFsync | "r" -> Some SRename | _ -> None)
                        (String.split_on_char ' ' (String.trim t)) in
